@@ -298,6 +298,18 @@ fn create_locales_enum(
     translation_unit_enum_ident: &syn::Ident,
     locales: &[Key],
 ) -> Result<TokenStream> {
+    // first of all: a locale name that is not a language identifier is an error (the identifiers built below are made from it).
+    let locids = locales
+        .iter()
+        .map(|locale| match locale.name.parse::<LanguageIdentifier>() {
+            Ok(locid) => Ok((locale, locid)),
+            Err(err) => Err(Error::InvalidLocale {
+                locale: locale.name.clone(),
+                err,
+            }.into()),
+        })
+        .collect::<Result<Vec<_>>>()?;
+
     let as_str_match_arms = locales
         .iter()
         .map(|key| (&key.ident, &key.name))
@@ -394,16 +406,6 @@ fn create_locales_enum(
     };
     let ld = icu_locid_transform::LocaleDirectionality::new();
 
-    let locids = locales
-        .iter()
-        .map(|locale| match locale.name.parse::<LanguageIdentifier>() {
-            Ok(locid) => Ok((locale, locid)),
-            Err(err) => Err(Error::InvalidLocale {
-                locale: locale.name.clone(),
-                err,
-            }.into()),
-        })
-        .collect::<Result<Vec<_>>>()?;
 
     let direction_match_arms = locids.iter().map(|(locale, locid)| {
         let dir = match ld.get(locid) {
